@@ -52,3 +52,23 @@ Example c02_nonvacuous :
   let z := mkZZ [mkZT 0 3600 1; mkZT 10000000 7200 2; mkZT 20000000 3600 1] 0 0 in
   wfz z = true /\ zk (zmake z 10003700) = ZS /\ zk (zmake z 20005000) = ZR /\ zk (zmake z 5000) = ZU.
 Proof. vm_compute. repeat split; reflexivity. Qed.
+
+From CCTZ Require Import FutureDefs FutureProofs.
+
+(* civil -> instant, years beyond the table of an extended zone *)
+Theorem c02_future_lookup : forall z h cs,
+  zone_ok z = true -> z_extended z = true -> valid_fields cs = true -> int64 (fy cs) ->
+  z_last_year z < fy cs ->
+  (* the table's last transition is local year last_year (what ExtendTransitions guarantees) *)
+  (forall l, last_opt (z_trans z) = Some l -> fy (tr_cs l) = z_last_year z /\ P400 <= tr_time l) ->
+  (* ... and the civil second just before it is not in a later year (ADDED: see the remark below) *)
+  (forall l, last_opt (z_trans z) = Some l -> fy (tr_pcs l) <= z_last_year z) ->
+  let k := (fy cs - z_last_year z - 1) / 400 + 1 in
+  let cs' := mkF (fy cs - 400 * k) (fm cs) (fd cs) (fhh cs) (fmm cs) (fss cs) in
+  exists h', let c := zmake (abs_zone z) (sec_of cs') in
+    make_time z h cs = OK (mkCL (match zk c with ZU => UNIQUE | ZS => SKIPPED | ZR => REPEATED end)
+                                (Z.min max64 (zpre c + k * P400)) (Z.min max64 (ztrans c + k * P400))
+                                (Z.min max64 (zpost c + k * P400)), h').
+Proof. exact make_future_lemma. Qed.
+Print Assumptions c02_future_lookup.
+
